@@ -571,7 +571,7 @@ impl Runner {
     }
 
     pub fn run_retry(&self, s: &MScript) -> Vec<Value> {
-        for _ in 0..20 {
+        for _ in 0..60 {
             let r = self.run(s);
             if self.hung.get() {
                 // keep the evidence of the hang even if the second boundary was crossed meanwhile
